@@ -51,8 +51,11 @@ pub fn run_script_dyn(variant: &str, sc: &Script) -> String {
 }
 
 pub fn clean_reader_panic(msg: &str) -> bool {
-    // the bounds panic provoked by a contract-violating reader
-    msg.contains("out of range for slice") || msg.contains("range end index") || msg.contains("slice index")
+    // "A reader that misreports how much it read may at worst cause a clean panic": the slice-bounds panic of the
+    // pinned code, but equally an explicit assertion - any ordinary unwinding panic. Not clean: what the property
+    // lists as forbidden for every caller (arithmetic overflow) and the runtime's own UB detectors.
+    let forbidden = ["with overflow", "unsafe precondition", "misaligned pointer", "null pointer dereference", "unreachable code"];
+    !forbidden.iter().any(|f| msg.contains(f))
 }
 
 pub fn run(r: &mut Report, ctx: &Ctx) {
@@ -177,7 +180,7 @@ pub fn run(r: &mut Report, ctx: &Ctx) {
                         acc.outcomes.insert(crate::report::fnv(out.split(':').next().unwrap().as_bytes()));
                         if let Some(msg) = out.strip_prefix("panic:") {
                             if !clean_reader_panic(msg) {
-                                acc.fail(idx, "lying-readers-monitored", format!("{v}: lying reader caused a panic that is not the slice-bounds panic: {msg}"), json!({"kind": "lying-script", "key": format!("panic-{}", script_key(sc)), "variant": v, "script": sc.to_json()}));
+                                acc.fail(idx, "lying-readers-monitored", format!("{v}: lying reader caused a panic that is not a clean one (arithmetic overflow or a runtime UB check): {msg}"), json!({"kind": "lying-script", "key": format!("panic-{}", script_key(sc)), "variant": v, "script": sc.to_json()}));
                             }
                         }
                         if idx % 97 == 0 {
@@ -242,7 +245,7 @@ pub fn run(r: &mut Report, ctx: &Ctx) {
                                 acc.fail(idx, "lying-readers-children", format!("{v}: child exited with {:?}: {text} {}", o.status.code(), String::from_utf8_lossy(&o.stderr)),
                                          json!({"kind": "lying-script-child", "key": format!("exit-{}", script_key(sc)), "variant": v, "script": sc.to_json()}));
                             } else if let Some(msg) = text.strip_prefix("panic:") {
-                                if !clean_reader_panic(msg) && !msg.contains("assertion failed: len <= buffer.len()") {
+                                if !clean_reader_panic(msg) {
                                     acc.fail(idx, "lying-readers-children", format!("{v}: unexpected panic: {msg}"), json!({"kind": "lying-script-child", "key": format!("panic-{}", script_key(sc)), "variant": v, "script": sc.to_json()}));
                                 }
                                 acc.outcomes.insert(2);
